@@ -54,6 +54,7 @@ func init() {
 		checkEngineInvariants(r, prog, "c15")
 		checkPegCombinators(r, prog, "c15")
 		checkBinaryActions(r, ga, "c15")
+		checkActionsDoNotRewrite(r, prog, "c15")
 		// (c) the actions build the prescribed nodes: selector path parts, operator constants, literal text
 		r.importing = "C07"
 		checkSelectorGrammar(r, ga, "c07")
